@@ -103,6 +103,8 @@ def relocate(jobs):
             base = canon(H.dump(Dataset(root), root, None))
             cases = []
             targets = [("nested", tmp / "a" / "b" / "c" / "ds", "abs"), ("unicode", tmp / "přesun 日本" / "ds", "abs"), ("blank", tmp / "my data set" / "the ds", "abs"),
+                       # names that are not in Unicode normal form C (decomposed accent, ANGSTROM SIGN, conjoining jamo), a trailing dot, a leading dash
+                       ("non_nfc", tmp / "cafe\u0301 \u212b \u1112\u1161\u11ab" / "ds", "abs"), ("odd_names", tmp / "-x y." / "ds.", "abs"),
                        ("relative", tmp / "work" / "sub" / "ds", "rel"), ("dotdot", tmp / "sib" / "ds", "dotdot"), ("moved", tmp / "moved" / "ds", "move")]
             more = {"kind": "filler", "sub": [], "reopen": False, "ops": [["W", 0, None, True], ["W", 0, None, True], ["W", 1, None, True]]}
             # what continuing in the original gives
